@@ -133,7 +133,7 @@ inductive Step : St → St → Prop
   | dispatch (s t it pick) : s.npc = .loop → Step s (dispatch s t it pick)
   | closeNode (s) : Step s { s with terminate := true }
   | nodeBreak (s) : s.npc = .loop → s.terminate = true → Step s { s with npc := .epilogue }
-  | nodeCloseChan (s c) : s.npc = .epilogue → c ∈ s.members →
+  | nodeCloseChan (s c) : s.npc = .epilogue → c ∈ s.members → (s.chans c).ctxDone = false →
       Step s (upd s c (fun x => { x with ctxDone := true }))
   | nodeToWait (s) : s.npc = .epilogue → (∀ c ∈ s.members, (s.chans c).ctxDone = true) → Step s { s with npc := .waiting }
   | nodeFinish (s) : s.npc = .waiting → s.provDone = true → (∀ c ∈ s.members, (s.chans c).cp = .finished) →
